@@ -37,7 +37,40 @@ func c15Decl(r *Rand, kind string) *Decl {
 	case "ini-callbacks-in-sections":
 		cfg.Types = append(cfg.Types, TypeSpec{K: KString, W: WFunc1}, TypeSpec{K: KString, W: WFunc1}, TypeSpec{W: WFunc0})
 	}
-	return GenDecl(r, cfg)
+	d := GenDecl(r, cfg)
+	if kind == "completion-list" || kind == "help-full" || kind == "required-list" {
+		// names that differ only in letter case (an ordering that ignores case would leave them to chance)
+		var shortOnly, longs []*Opt
+		for _, o := range d.Opts {
+			if o.Cmd != d.Root || o.Hidden {
+				continue
+			}
+			if o.Long == "" && o.Short != 0 {
+				shortOnly = append(shortOnly, o)
+			} else if o.Long != "" && len(o.NsChain()) == 0 {
+				longs = append(longs, o)
+			}
+		}
+		used := map[rune]bool{}
+		for _, o := range d.Opts {
+			if o.Cmd == d.Root {
+				used[o.Short] = true
+			}
+		}
+		if len(shortOnly) >= 2 && !used['q'] && !used['Q'] {
+			shortOnly[0].Short, shortOnly[1].Short = 'q', 'Q'
+		} else if len(longs) >= 2 && !used['q'] && !used['Q'] {
+			// make two long-named options short-only
+			longs[0].Long, longs[0].Short = "", 'q'
+			longs[1].Long, longs[1].Short = "", 'Q'
+			longs = longs[2:]
+		}
+		if len(longs) >= 2 {
+			longs[0].Long = "zeta-" + fmt.Sprint(longs[0].ID)
+			longs[1].Long = "Zeta-" + fmt.Sprint(longs[0].ID)
+		}
+	}
+	return d
 }
 
 // c15Populate stores several entries into every map option (what a program does before parsing).
